@@ -512,6 +512,7 @@ def run_decoders(b: Batch, r, n):
             recs.append((wd, mask, cookie, name))
             buf += simkernel.pack(wd, mask, cookie, name, pad_to=r.choice([16, 16, 4, 1, 32]))
         got = list(Inotify._parse_event_buffer(buf))
+        b.case()
         b.count("decoder_buffers")
         b.count("decoder_records", nrec)
         if got != recs:
@@ -528,6 +529,7 @@ def run_decoders(b: Batch, r, n):
             data = platshim.pack_fni(recs, pad_words=r.choice([0, 1, 2, 3]), exact_last=r.random() < 0.5)
             raw = data + b"\0" * r.choice([0, 64])
             got = _parse_event_buffer(raw, len(data))
+            b.case()
             b.count("decoder_buffers")
             if got != recs:
                 bad = [(g, w) for g, w in zip(got, recs) if g != w]
